@@ -58,7 +58,7 @@ pub enum ServerFault {
     LostReply,
 }
 
-#[derive(Default)]
+#[derive(Default, Clone)]
 pub struct ServerState {
     /// every version ever accepted, in chain order
     pub versions: Vec<Ver>,
@@ -144,6 +144,13 @@ impl ModelServer {
                 next_id: 1,
                 ..Default::default()
             })),
+        }
+    }
+
+    /// A new, independent server starting from a copy of `state`.
+    pub fn from_state(state: ServerState) -> Self {
+        ModelServer {
+            state: Rc::new(RefCell::new(state)),
         }
     }
 
